@@ -20,6 +20,7 @@ import (
 	"github.com/ovrclk/akash/pubsub"
 	atypes "github.com/ovrclk/akash/types"
 	"github.com/ovrclk/akash/util/runner"
+	"github.com/ovrclk/akash/util/verifhook"
 	mtypes "github.com/ovrclk/akash/x/market/types"
 )
 
@@ -360,6 +361,7 @@ func (is *inventoryService) run(reservations []*reservation) {
 
 loop:
 	for {
+		verifhook.Emit("cluster.inv.loop", is, runch != nil, reserveChLocal != nil)
 		select {
 		case err := <-is.lc.ShutdownRequest():
 			is.lc.ShutdownInitiated(err)
